@@ -39,8 +39,11 @@ class H1ServerPeer(Peer):
     with responder(k, request_msg) -> (response_bytes, close_after: bool) once that request is complete
     (so TCP causality holds by construction)."""
 
-    def __init__(self, responder, rng=None, seg="whole", respond_on_head=False):
+    def __init__(self, responder, rng=None, seg="whole", early_ok=None):
+        """early_ok(k, head_msg) -> bool: answer request k as soon as its complete HEAD was written upstream (an origin that
+        does not wait for the request body, e.g. during request streaming); still causal: the head has been received."""
         super().__init__()
+        self.early_ok = early_ok
         self.responder = responder
         self.rng = rng
         self.seg = seg
@@ -68,6 +71,20 @@ class H1ServerPeer(Peer):
             if close_after:
                 self.close()
                 self.closed = True
+        if self.early_ok is not None and status == "incomplete" and not self.closed and self.answered == len(msgs):
+            head, sep, _ = bytes(rest).lstrip(b"\r\n").partition(b"\r\n\r\n")
+            parts = head.split(b"\r\n", 1)[0].split(b" ")
+            if sep and len(parts) == 3:
+                hm = {"method": parts[0].decode("latin-1"), "target": parts[1], "early": True}
+                if self.early_ok(self.answered, hm):
+                    k = self.answered
+                    self.answered += 1
+                    data, close_after = self.responder(k, hm, self)
+                    for s in cut(data, self.rng, self.seg):
+                        self.send(s)
+                    if close_after:
+                        self.close()
+                        self.closed = True
 
     def on_data(self, data):
         self._reparse()
